@@ -1392,6 +1392,21 @@ func c03Unsupported(c *fw.Ctx, idx int) {
 	c.SetInput(map[string]any{"geometry": g.String(), "mode": m.name})
 	t := g.BuildFlat()
 	var err error
+	if depth := r.Intn(4); depth > 0 && layout != geom.NoLayout {
+		// ... as a member (behind supported ones) of a collection nested 1..3 deep
+		for d := 0; d < depth; d++ {
+			gc := geom.NewGeometryCollection()
+			if r.Bool() {
+				_ = gc.Push(geom.NewPointFlat(geom.XY, []float64{1, 2}))
+			}
+			_ = gc.Push(t)
+			if r.Bool() {
+				_ = gc.Push(geom.NewLineStringFlat(geom.XYZ, []float64{1, 2, 3, 4, 5, 6}))
+			}
+			t = gc
+		}
+		c.Count("unsupported_layout_inside_collections")
+	}
 	if c.Guard("panic", func() { _, err = m.marshal(t) }) {
 		return
 	}
